@@ -57,6 +57,11 @@ def rel_coord(st, rank):
              EBinOp(EVar(rank.lower()), OSub(), EVar(st.get_offset(rank).lower()))))
 
 
+def ets_(canvas):
+    """the tensors of the Einsum being displayed"""
+    return canvas.program.get_equation().get_tensors()
+
+
 def stamp_tuple(e, st, ranks):
     return (isinstance(e, ETuple) and len(cast(ETuple, e).elems) == len(ranks)
             and all(cast(ETuple, e).elems[i] == rel_coord(st, ranks[i]) for i in range(len(ranks))))
@@ -188,8 +193,49 @@ CONTRACTS = {
     ),
     "Canvas.display_canvas": dict(params=["self"], returns="Statement", assumed=True, modifies=[],
                                   raises={"ValueError": None}),
-    "Canvas.create_canvas": dict(params=["self"], returns="Statement", assumed=True,
-                                 modifies=["self.tensors"], raises={"ValueError": None}),
+    # the canvas is created over snapshots that the display cannot tell from the tensors as they are NOW (same
+    # variable name, same access ranks), the output (the live object) last; one createCanvas argument per snapshot,
+    # spelled from that snapshot's name
+    "ProgramS.get_equation": dict(params=["self"], returns="EquationS", **_OBS),
+    "EquationS.get_tensors": dict(params=["self"], returns="List[TensorS]", **_OBS),
+    "EquationS.get_output": dict(params=["self"], returns="TensorS", **_OBS),
+    "TensorS.tensor_name": dict(params=["self"], returns="str", **_OBS),
+    "Canvas.create_canvas": dict(
+        modifies=["self.tensors"],
+        ghost_entry="g_src = []\ng_at = []\n",
+        ghost_after={"self.tensors.append(deepcopy(tensor))": "g_src = g_src + [kt]\ng_at = g_at + [len(self.tensors) - 1]\n"},
+        ensures_env="exit",
+        ensures=[
+            ("snapshots_of_the_inputs_then_the_output",
+             "len(self.tensors) == len(g_src) + 1 and "
+             "self.tensors[len(g_src)] == self.program.get_equation().get_output() and "
+             "all(0 <= g_src[t] and g_src[t] < len(ets_(self)) and ets_(self)[g_src[t]] != self.program.get_equation().get_output() "
+             "    and self.tensors[t].tensor_name() == ets_(self)[g_src[t]].tensor_name() "
+             "    and self.tensors[t].get_access() == ets_(self)[g_src[t]].get_access() "
+             "    and self.tensors[t] != ets_(self)[g_src[t]] for t in range(len(g_src)))"),
+            ("in_order", "all(g_src[t] < g_src[u] for u in range(len(g_src)) for t in range(u))"),
+            ("every_input_displayed", "len(g_at) == len(ets_(self)) and "
+                                      "all(implies(ets_(self)[j] != self.program.get_equation().get_output(), "
+                                      "            0 <= g_at[j] and g_at[j] < len(g_src) and g_src[g_at[j]] == j) for j in range(len(ets_(self))))"),
+            ("one_argument_per_displayed_tensor_by_its_name",
+             "isinstance(result, SAssign) and cast(SAssign, result).assn == AVar('canvas') and "
+             "isinstance(cast(SAssign, result).expr, EFunc) and cast(EFunc, cast(SAssign, result).expr).name == 'createCanvas' and "
+             "len(cast(EFunc, cast(SAssign, result).expr).args) == len(self.tensors) and "
+             "all(cast(EFunc, cast(SAssign, result).expr).args[i] == AJust(EVar(self.tensors[i].tensor_name())) "
+             "    for i in range(len(self.tensors)))"),
+        ],
+        loops={0: dict(idx="kt", modifies=["self.tensors[]"], ghost_vars=["g_src", "g_at"],
+                       ghost_step="g_at = g_at if len(g_at) == kt else g_at + [-1]\n",
+                       inv=[("own", "fresh(self.tensors)"),
+                            ("snap", "len(self.tensors) == len(g_src) and "
+                                     "all(0 <= g_src[t] and g_src[t] < kt and ets_(self)[g_src[t]] != self.program.get_equation().get_output() "
+                                     "    and self.tensors[t].tensor_name() == ets_(self)[g_src[t]].tensor_name() "
+                                     "    and self.tensors[t].get_access() == ets_(self)[g_src[t]].get_access() "
+                                     "    and self.tensors[t] != ets_(self)[g_src[t]] for t in range(len(g_src)))"),
+                            ("order", "all(g_src[t] < g_src[u] for u in range(len(g_src)) for t in range(u))"),
+                            ("all", "len(g_at) == kt and all(implies(ets_(self)[j] != self.program.get_equation().get_output(), "
+                                    "0 <= g_at[j] and g_at[j] < len(g_src) and g_src[g_at[j]] == j) for j in range(kt))")])},
+    ),
     "Canvas.__init__": dict(
         modifies=["self.program", "self.tensors"],
         ensures=["same_ref(self.program, program)", "self.tensors is None"],
